@@ -203,6 +203,19 @@ func judgeC15Base(b *built, in []byte) (ref []byte, sig, what string) {
 	if string(o2) != o1 {
 		return nil, "bytes-vs-string", fmt.Sprintf("SanitizeBytes=%s differs from Sanitize=%s", run.Q(string(o2)), run.Q(o1))
 	}
+	// a reader that has already been read from (and can seek): only what is left in it is sanitised
+	func() {
+		defer func() { recover() }()
+		pre := "<i>already consumed</i>"
+		br := bytes.NewReader([]byte(pre + s))
+		io.CopyN(io.Discard, br, int64(len(pre)))
+		if got := b.P.SanitizeReader(br); got != nil && got.String() != o1 {
+			sig, what = "reader-offset", fmt.Sprintf("SanitizeReader on a bytes.Reader positioned after %d consumed bytes gave %s, Sanitize of the rest gives %s", len(pre), run.Q(got.String()), run.Q(o1))
+		}
+	}()
+	if sig != "" {
+		return nil, sig, what
+	}
 	// a result already handed out stays what it was when the policy goes on to sanitise something else (checked
 	// here, right after SanitizeBytes, and again below after SanitizeReader)
 	other := "<i>another</i> document: " + s[len(s)/2:] + s[:len(s)/2] + " <b>end</b>"
